@@ -11,6 +11,8 @@ import (
 	"strconv"
 	"strings"
 	"testing"
+
+	"github.com/daeuniverse/dae/pkg/anybuffer"
 )
 
 func c11Val(r *VRand, unit int, stats *VStats, allowBad bool) uint64 {
@@ -154,5 +156,106 @@ func TestVerifC11BitList(t *testing.T) {
 		st.Emit(op, fmt.Sprintf("g=%s | st=%s", strings.Join(outs, ","), c11Dump(m)))
 		stats.Sample(op)
 	}
+	c11AnyBuffer(st, stats, r)
 	stats.Write("c11bl")
+}
+
+func c11Fnv(s string) uint64 {
+	h := uint64(14695981039346656037)
+	for i := 0; i < len(s); i++ {
+		h ^= uint64(s[i])
+		h *= 1099511628211
+	}
+	return h
+}
+
+// the storage under CompactBitList, driven directly (op `ab`): NewBuffer(size), Extend past the capacity
+// (re-slice without clearing vs. allocate 2*cap+n and copy), writes through Slice(), NewBufferFrom (what Tighten
+// does), and — never used by CompactBitList, modelled all the same — Truncate, after which Extend exposes the
+// old contents.  Compared: number of panics, Len and the visible contents; Cap follows as a diagnostic.
+func c11AnyBuffer(st *VStream, stats *VStats, r *VRand) {
+	scripts := 400
+	if VThorough() {
+		scripts = 4000
+	}
+	for n := 0; n < scripts; n++ {
+		size := []int{0, 1, 2, 8, 8, 8, 16, 64, 100}[r.Intn(9)]
+		b := anybuffer.NewBuffer[uint16](size)
+		withTrunc := n%4 == 3
+		ops := []string{}
+		panics := 0
+		nops := r.Range(1, 30)
+		for k := 0; k < nops; k++ {
+			switch c := r.Intn(12); {
+			case c < 5:
+				e := r.Intn(12)
+				switch r.Intn(8) {
+				case 0:
+					e = 0
+				case 1:
+					e = b.Cap() - b.Len() // exactly the spare capacity
+				case 2:
+					e = b.Cap() - b.Len() + 1 // one more
+				case 3:
+					e = r.Range(50, 700)
+				}
+				ops = append(ops, fmt.Sprintf("e%d", e))
+				b.Extend(e)
+				stats.Inc("ab.op.extend")
+			case c < 10:
+				i := 0
+				if b.Len() > 0 {
+					i = r.Intn(b.Len())
+				}
+				if r.Chance(0.1) {
+					i = b.Len() + r.Intn(3) // out of range: panics, nothing changes
+				}
+				v := uint16(r.U64())
+				ops = append(ops, fmt.Sprintf("w%d:%x", i, v))
+				if strings.HasPrefix(VRecover(func() string { b.Slice()[i] = v; return "" }), "crash:") {
+					panics++
+				}
+				stats.Inc("ab.op.write")
+			case c == 10:
+				a := make([]uint16, b.Len())
+				copy(a, b.Slice())
+				b = anybuffer.NewBufferFrom(a)
+				ops = append(ops, "f")
+				stats.Inc("ab.op.from")
+			default:
+				if !withTrunc {
+					continue
+				}
+				tn := 0
+				if b.Len() > 0 && r.Chance(0.7) {
+					tn = r.Intn(b.Len() + 1)
+				}
+				if r.Chance(0.1) {
+					tn = b.Len() + 1 + r.Intn(2)
+				}
+				ops = append(ops, fmt.Sprintf("t%d", tn))
+				if strings.HasPrefix(VRecover(func() string { b.Truncate(tn); return "" }), "crash:") {
+					panics++
+				}
+				stats.Inc("ab.op.truncate")
+			}
+		}
+		sl := b.Slice()
+		parts := make([]string, len(sl))
+		for i, w := range sl {
+			parts[i] = strconv.FormatUint(uint64(w), 16)
+		}
+		body := strings.Join(parts, ".")
+		if len(sl) > 64 {
+			body = fmt.Sprintf("fnv:%x", c11Fnv(body))
+		}
+		if withTrunc {
+			stats.Inc("ab.script.with_truncate")
+		}
+		stats.Inc("ab.scripts")
+		if b.Cap() > stats.C["ab.cap.max"] {
+			stats.C["ab.cap.max"] = b.Cap()
+		}
+		st.Emit(fmt.Sprintf("ab %d %s", size, strings.Join(ops, " ")), fmt.Sprintf("p=%d len=%d s=%s | cap=%d", panics, b.Len(), body, b.Cap()))
+	}
 }
